@@ -170,7 +170,9 @@ class Scoreboard:
                         if current_idx > eIdx:
                             current_idx = eIdx
 
-                        intervals.append(TimeInterval(self.idxToDate(start), self.idxToDate(current_idx)))
+                        # A run that lies wholly outside the query window clips to nothing
+                        if start < current_idx:
+                            intervals.append(TimeInterval(self.idxToDate(start), self.idxToDate(current_idx)))
                     duration = 0
                     start = -1
             idx += 1
